@@ -253,8 +253,16 @@ def judge(batches, results, verdicts, stats, decls):
             src = (d or {}).get("source", "")
             where = program_line(src)
             if "binds" in b:
-                pl = [l.strip() for l in src.splitlines() if l.strip().startswith(("print(", "v1:", "v2:", "v3:"))]
-                where = "step %d of the history  %s" % (it["k"], " ; ".join(pl))
+                pl, open_braces = [], 0      # the body of the history function; a blob literal spans several lines
+                for l in (x.strip() for x in src.splitlines()):
+                    if open_braces > 0:
+                        pl[-1] += " " + l
+                    elif l.startswith(("print(", "v1:", "v2:", "v3:")):
+                        pl.append(l)
+                    else:
+                        continue
+                    open_braces += l.count("{") - l.count("}")
+                where = "step %d of the history  %s" % (it["k"], " ; ".join(pl).replace("{ ", "{").replace(", }", "}"))
             what = "%s: the specification says %s, the compiled program %s" % (
                 where or "%s on %s" % (it["op"], it["shape"]), show(it["want"]),
                 ("printed %s" % ", ".join((d or {}).get("got", ["?"])[:3])) if v.startswith("mismatch") else
